@@ -353,7 +353,8 @@ Crash ==
     /\ pc' = "crashed"
     /\ mem' = Fresh /\ eng' = NewEngine /\ sv' = Fresh /\ ret' = "none" /\ lfc' = FALSE
     /\ crashes' = crashes + 1
-    /\ last' = [op |-> "crash"]
+    /\ last' = [op |-> "crash", at |-> pc]      \* (the control point is remembered so that crashes at different
+                                                \*  points are different states of the state cover used for GEN)
     /\ UNCHANGED <<out, bak, saved, durable>>
 
 \* resume_from_checkpoint(filename = f): needs a loadable file of an unfinished run
